@@ -129,3 +129,84 @@ func Harness_C36_inbound_limits() {
 		assert(cc.getInboundCountWithIp("10.0.0.2") <= opt.MaxConnInBoundPerIP, "per-ip-connections-within-limit")
 	}
 }
+
+// ---- sequential histories: inbound accepts, outbound dials (including dial-backs of the same peer) and
+// closes, one after the other; limits are compared with the harness's own record of open connections ----
+
+var c36IPs = []string{"10.0.0.1", "10.0.0.2", "2001:db8::1"}
+
+func c36HostPort(ip int, port int) string {
+	p := []string{"1001", "1002", "1003", "1004", "1005"}[port]
+	if ip == 2 {
+		return "[" + c36IPs[ip] + "]:" + p
+	}
+	return c36IPs[ip] + ":" + p
+}
+
+type c36Open struct {
+	conn    net.Conn
+	inbound bool
+	ip      int
+	open    bool
+}
+
+func Harness_C36_sequential() {
+	opt := ConnCtrlOption{
+		MaxConnInBound:      uint(1 + nondetRange("maxin", 2)),
+		MaxConnInBoundPerIP: uint(1 + nondetRange("maxperip", 2)),
+		MaxConnOutBound:     uint(1 + nondetRange("maxout", 2)),
+		ReservedPeers:       p2p.AllAddrFilter(),
+	}
+	self := &common.PeerKeyId{Id: common.PseudoPeerIdFromUint64(999)}
+	cc := NewConnectController(peer.NewPeerInfo(self.Id, 1, 1, true, 0, 20338, 0, "v", "127.0.0.1:20338"), self, opt, c36Logger{})
+	K := param("conns")
+	var opens []*c36Open
+	for i := 0; i < K; i++ {
+		// optionally close one earlier connection first
+		if len(opens) > 0 && nondetBool("closefirst") {
+			o := opens[nondetRange("closewhich", len(opens))]
+			if o.open {
+				o.conn.Close()
+				o.open = false
+			}
+		}
+		ip := nondetRange("ip", param("ips"))
+		inbound := nondetBool("inbound")
+		pid := uint64(1 + nondetRange("peerid", 2))
+		addr := c36HostPort(ip, i)
+		conn := &c36Conn{remote: c36Addr(addr)}
+		info := peer.NewPeerInfo(common.PseudoPeerIdFromUint64(pid), 1, 1, true, 0, uint16(2000+i), 0, "v", addr)
+		index := OUTBOUND_INDEX
+		if inbound {
+			index = INBOUND_INDEX
+		}
+		if cc.beforeHandshakeCheck(addr, index) != nil {
+			continue
+		}
+		if cc.afterHandshakeCheck(info, addr) != nil {
+			continue
+		}
+		wrapped := cc.savePeer(conn, info, index)
+		opens = append(opens, &c36Open{conn: wrapped, inbound: inbound, ip: ip, open: true})
+		// limits against the harness's own record
+		in, out := uint(0), uint(0)
+		var perIP [3]uint
+		for _, o := range opens {
+			if !o.open {
+				continue
+			}
+			if o.inbound {
+				in++
+				perIP[o.ip]++
+			} else {
+				out++
+			}
+		}
+		assert(in <= opt.MaxConnInBound, "seq-inbound-within-limit")
+		assert(out <= opt.MaxConnOutBound, "seq-outbound-within-limit")
+		for k := 0; k < 3; k++ {
+			assert(perIP[k] <= opt.MaxConnInBoundPerIP, "seq-per-ip-within-limit")
+		}
+		assert(cc.InboundsCount() == in && cc.OutboundsCount() == out, "seq-controller-counts-match-open-connections")
+	}
+}
